@@ -7,14 +7,13 @@
   Capacity accounting is byte exact (header, 2-byte slots, `cell_len`, NO reclamation of cell bytes on
   delete: `delete_from_leaf` only removes the slot).  Keys are abstract ordered values with a size
   (`KeyOrd`); the driver instantiates them with byte strings.  All layout numbers and the comparison
-  operators of the hand-written binary searches come from `Cfg`; `Cfg.real` is filled from
-  `Model/Generated/Sizes.lean`, regenerated from the source on every check.
+  operators of the hand-written binary searches come from `Cfg`; `Cfg.real` (Model/BTreeReal.lean) is
+  filled from `Model/Generated/Sizes.lean`, regenerated from the source on every check.
   Every `unwrap`/index/`Vec::insert` that can panic is an explicit `panic` outcome, every `?` an
   `err`, every data-dependent loop has fuel (`loop` when it runs out; fuel = number of pages).
   Core only.
 -/
 import Nervus.Spec.Multimap
-import Nervus.Model.Generated.Sizes
 namespace Nervus.BTree
 open Nervus
 
@@ -33,17 +32,6 @@ structure Cfg where
   intSearchLe : Bool       -- internal_child_for_key goes right on `k <= target`
   advSkipsEmpty : Bool     -- BTreeCursor::advance loops over empty leaves
   deriving Repr, DecidableEq
-
-def Cfg.real : Cfg :=
-  { ps := Generated.pageSize, leafHdr := Generated.btreeLeafHeader, intHdr := Generated.btreeInternalHeader,
-    slotW := Generated.btreeSlotWidth, leafFixed := Generated.btreeLeafCellFixed,
-    intFixed := Generated.btreeInternalCellFixed, slack := Generated.btreeLeafSpaceSlack,
-    firstPage := Generated.pagerFirstDataPage, maxPages := Generated.pagerBitmapBits,
-    leafSearchLe := Generated.btreeLeafSearchLe, intSearchLe := Generated.btreeInternalSearchLe,
-    advSkipsEmpty := Generated.btreeAdvanceSkipsEmpty }
-
-/-- the real layout on a small page (for kernel-evaluated examples): only `ps` differs -/
-def Cfg.small (ps : Nat) : Cfg := { Cfg.real with ps := ps }
 
 /-! ### page map -/
 
